@@ -2,19 +2,114 @@
 From Coq Require Import List ZArith NArith Bool Arith Lia.
 From GoProbe.Base Require Import CorrLib.
 From GoProbe.C04 Require Import Model.
-From GoProbe.C30 Require Import C04P1 C04P2 C04P3 C04P4 C04P5.
+From GoProbe.C30 Require Import C04P1 C04P2 C04P3 C04P4 C04P5 C04PC.
 From GoProbe.C30 Require Import WInv WInv2 WInv3.
 Import ListNotations.
 
-Ltac pre_tac := repeat (apply Forall_app; split);
-  auto using pre_month, pre_mkdir, pre_colops, pre_closes;
-  try unfold col_ops;
-  repeat first [ match goal with |- Forall _ (if ?c then _ else _) => destruct c end
-               | apply Forall_app; split | constructor ].
-
-Lemma wo_good s a nf w : GoodS s a nf -> clean a nf -> WoSpec s (writeout_ops s w) a nf w.
+(* ------------------------------------------------------------------ offsets and the column phase *)
+Lemma m_cur_clen bl : forall c, c < ncols -> nth c (m_cur (meta_of bl)) 0 = clen c bl.
 Proof.
-  intros G C. pose proof (proj2 G (w_key w)) as IL.
+  induction bl as [|w bl IH] using rev_ind; intros c Hc.
+  - cbn. do 8 (destruct c as [|c]; [reflexivity|]). unfold ncols in Hc. lia.
+  - rewrite meta_of_snoc. cbn [meta_add m_cur]. rewrite nth_cols by auto. rewrite IH by auto.
+    rewrite clen_app, clen_one by auto. reflexivity.
+Qed.
+
+Lemma ok_month a s w : Forall (op_ok a) (month_ops s w).
+Proof. unfold month_ops. destruct (has_up _ _); repeat constructor. Qed.
+Lemma ok_mkdir a s w : Forall (op_ok a) (mkdir_ops s w).
+Proof. unfold mkdir_ops. repeat (apply Forall_app; split); try (destruct (has_up _ _)); repeat constructor. Qed.
+Lemma ok_closes a p w : Forall (op_ok a) (col_closes p w).
+Proof. apply Forall_flat_map; intros c. destruct (Nat.eqb _ _); repeat constructor. Qed.
+Lemma ok_colops a p w : dp_key p = w_key w -> Forall (op_ok a) (flat_map (col_ops p (cur_meta a (w_key w)) w) cols).
+Proof.
+  intros K. assert (G : forall l, (forall c, In c l -> c < ncols) -> Forall (op_ok a) (flat_map (col_ops p (cur_meta a (w_key w)) w) l)).
+  { induction l as [|c l IH]; intros Hl; cbn [flat_map]; [constructor|]. apply Forall_app; split; [|apply IH; intros; apply Hl; now right].
+    unfold col_ops. destruct (Nat.eqb _ _); [constructor|].
+    assert (O : op_ok a (OWrite (RCol p c) (nth c (m_cur (cur_meta a (w_key w))) 0) (WBytes (pbytes (w_id w) c (w_len w c))))).
+    { cbn. rewrite K, cur_meta_daylist. apply m_cur_clen. apply Hl. now left. }
+    destruct (nth c (w_renc w) false); repeat constructor; exact O. }
+  apply G. intros c. apply in_cols.
+Qed.
+Lemma ok_nr a l : Forall (op_ok a) l -> Forall not_rename l.
+Proof. apply Forall_impl. apply op_ok_not_rename. Qed.
+
+Lemma apply_closes p w s : apply_all s (col_closes p w) = s.
+Proof.
+  unfold col_closes. generalize cols. intros l. revert s. induction l as [|c l IH]; intros s; cbn [flat_map]; [reflexivity|].
+  rewrite apply_all_app, IH. destruct (Nat.eqb _ _); reflexivity.
+Qed.
+
+Lemma col_step p m w c s d bl : day_at s p = Some d -> c < ncols -> nth c (m_cur m) 0 = clen c bl ->
+  exists d', day_at (apply_all s (col_ops p m w c)) p = Some d' /\
+    read_col d' c (clen c bl) (w_len w c) = Some (blk w c) /\
+    (forall c', c' <> c -> d_cols d' c' = d_cols d c') /\ d_suf d' = d_suf d.
+Proof.
+  intros D Hc OFF. unfold col_ops. destruct (Nat.eqb (w_len w c) 0) eqn:Z.
+  - exists d. cbn. repeat split; auto. apply Nat.eqb_eq in Z. unfold blk. rewrite Z. reflexivity.
+  - rewrite OFF. set (off := clen c bl). set (b := pbytes (w_id w) c (w_len w c)).
+    (* the state after OpenFile *)
+    assert (S1 : exists d1 old, day_at (fst (apply s (OOpenW (RCol p c)))) p = Some d1 /\ d_cols d1 c = Some old /\
+                 (forall c', c' <> c -> d_cols d1 c' = d_cols d c') /\ d_suf d1 = d_suf d).
+    { cbn [apply]. rewrite D. destruct (d_cols d c) as [old|] eqn:DC; cbn [fst].
+      - exists d, old. auto.
+      - exists (set_col d c (Some [])), []. split; [apply (day_at_upd s p (fun d0 => set_col d0 c (Some [])) d); auto|]. cbn. rewrite Nat.eqb_refl.
+        repeat split; auto. intros c' N. apply Nat.eqb_neq in N. now rewrite N. }
+    destruct S1 as (d1 & old & D1 & O1 & F1 & U1).
+    set (s1 := fst (apply s (OOpenW (RCol p c)))) in *.
+    assert (E : apply_all s ([OOpenW (RCol p c); OSeek (RCol p c) off] ++
+                 (if nth c (w_renc w) false then [OSeek (RCol p c) off] else []) ++ [OWrite (RCol p c) off (WBytes b)])
+                = fst (apply s1 (OWrite (RCol p c) off (WBytes b)))).
+    { destruct (nth c (w_renc w) false); reflexivity. }
+    rewrite E. cbn [apply]. rewrite D1, O1. cbn [fst].
+    exists (set_col d1 c (Some (write_at old off b))).
+    split; [apply (day_at_upd s1 p (fun d0 => set_col d0 c (Some (write_at old off b))) d1); auto|].
+    split; [|split].
+    + unfold read_col. rewrite Z. cbn [set_col d_cols]. rewrite Nat.eqb_refl.
+      assert (LB : length b = w_len w c) by apply pbytes_len.
+      assert (R : firstn (w_len w c) (skipn off (write_at old off b)) = b) by (rewrite <- LB at 1; apply read_at_written).
+      cbv zeta. rewrite R, LB, Nat.eqb_refl. reflexivity.
+    + intros c' N. pose proof (F1 c' N) as F. cbn. apply Nat.eqb_neq in N. rewrite N. exact F.
+    + exact U1.
+Qed.
+
+Lemma cols_run p m w bl : (forall c, c < ncols -> nth c (m_cur m) 0 = clen c bl) ->
+  forall cs s d, day_at s p = Some d -> (forall c, In c cs -> c < ncols) -> NoDup cs ->
+  exists d', day_at (apply_all s (flat_map (col_ops p m w) cs)) p = Some d' /\
+     (forall c, In c cs -> read_col d' c (clen c bl) (w_len w c) = Some (blk w c)) /\
+     (forall c, ~ In c cs -> d_cols d' c = d_cols d c) /\ d_suf d' = d_suf d.
+Proof.
+  intros OFF. induction cs as [|c r IH]; intros s d D HC ND.
+  - exists d. cbn. repeat split; auto. intros c [].
+  - cbn [flat_map]. rewrite apply_all_app. inversion ND as [|? ? NI ND']; subst.
+    destruct (col_step p m w c s d bl D (HC c (or_introl eq_refl)) (OFF c (HC c (or_introl eq_refl)))) as (d1 & D1 & R1 & F1 & U1).
+    destruct (IH _ _ D1 (fun c' H' => HC c' (or_intror H')) ND') as (d2 & D2 & R2 & F2 & U2).
+    exists d2. split; auto. split; [|split].
+    + intros c' [<-|I]; [|now apply R2]. rewrite <- R1. apply read_col_ext. now apply F2.
+    + intros c' N. rewrite F2 by (intros I; apply N; now right). apply F1. intros ->. apply N. now left.
+    + congruence.
+Qed.
+
+(* after the column phase of a write-out the new block can be read at the committed end of every column *)
+Lemma cols_phase p a w s d : dp_key p = w_key w -> day_at s p = Some d ->
+  exists d', day_at (apply_all s (flat_map (col_ops p (cur_meta a (w_key w)) w) cols ++ col_closes p w)) p = Some d' /\
+    forall c, c < ncols -> read_col d' c (clen c (daylist a (w_key w))) (w_len w c) = Some (blk w c).
+Proof.
+  intros K D. rewrite apply_all_app, apply_closes.
+  destruct (cols_run p (cur_meta a (w_key w)) w (daylist a (w_key w))
+              ltac:(intros c Hc; rewrite cur_meta_daylist; now apply m_cur_clen) cols s d D) as (d' & D' & R & _).
+  - intros c. apply in_cols.
+  - apply seq_NoDup.
+  - exists d'. split; auto. intros c Hc. apply R. now apply in_cols.
+Qed.
+
+Ltac ok_tac :=
+  repeat first [ apply ok_month | apply ok_mkdir | apply ok_closes | (apply ok_colops; reflexivity)
+               | (apply Forall_app; split) | constructor ].
+
+Lemma wo_good s a nf w : GoodS s a nf -> clean a nf -> wf_w w -> WoSpec s (writeout_ops s w) a nf w.
+Proof.
+  intros G C WFw. pose proof (proj2 G (w_key w)) as IL.
   unfold writeout_ops, writeout_run.
   destruct (lookup (w_key w) (f_days s)) as [d|] eqn:L.
   - assert (DA : day_at s {| dp_key := w_key w; dp_suf := d_suf d |} = Some d).
@@ -25,13 +120,16 @@ Proof.
       destruct IL as (NE & HM & _). rewrite M in HM. injection HM as ->.
       rewrite meta_has_ts_of. destruct (existsb _ bl) eqn:EX; cbn [fst].
       * apply wo_rejected; auto.
-        -- pre_tac.
+        -- ok_tac.
         -- unfold adb_put. now rewrite La, EX.
       * replace (meta_of bl) with (cur_meta a (w_key w)) by (unfold cur_meta; now rewrite La).
         rewrite !app_assoc.
         apply wo_split_good; auto.
-        -- pre_tac.
-        -- eapply run_day_at in DA as (d' & D' & _); eauto. pre_tac.
+        -- ok_tac.
+        -- rewrite <- !app_assoc. rewrite (app_assoc (month_ops s w)). rewrite apply_all_app.
+           match goal with |- context [apply_all s (month_ops s w ++ ?X)] =>
+             eapply (run_day_at (month_ops s w ++ X)) in DA as (d2 & D2 & _); [|apply (ok_nr a); ok_tac] end.
+           apply (cols_phase _ a w _ d2); auto.
         -- unfold put_ok. now rewrite La, EX.
     + exfalso. destruct (lookup (w_key w) a).
       * destruct IL as (_ & HM & _). congruence.
@@ -41,23 +139,28 @@ Proof.
       cbn [fst]. replace new_meta with (cur_meta a (w_key w)) by (unfold cur_meta; now rewrite La).
       rewrite !app_assoc.
       apply wo_split_good; auto.
-      * pre_tac.
-      * eapply run_day_at in DA as (d' & D' & _); eauto. pre_tac.
+      * ok_tac.
+      * rewrite <- !app_assoc. rewrite (app_assoc (month_ops s w)). rewrite apply_all_app.
+        match goal with |- context [apply_all s (month_ops s w ++ ?X)] =>
+             eapply (run_day_at (month_ops s w ++ X)) in DA as (d2 & D2 & _); [|apply (ok_nr a); ok_tac] end.
+        apply (cols_phase _ a w _ d2); auto.
       * unfold put_ok. now rewrite La.
   - cbn [fst]. replace new_meta with (cur_meta a (w_key w)) by (unfold cur_meta; now rewrite IL).
     rewrite !app_assoc.
     apply wo_split_good; auto.
-    + pre_tac.
+    + ok_tac.
     + destruct (mkdir_creates s w L) as [d0 D0].
-      rewrite <- !app_assoc. rewrite app_assoc. rewrite apply_all_app.
-      eapply run_day_at in D0 as (d' & D' & _); eauto. pre_tac.
+      rewrite <- !app_assoc. rewrite (app_assoc (month_ops s w)). rewrite apply_all_app.
+      rewrite apply_all_app.
+      eapply (run_day_at [OOpenR (RMeta {| dp_key := w_key w; dp_suf := None |})]) in D0 as (d2 & D2 & _); [|repeat constructor].
+      apply (cols_phase _ a w _ d2); auto.
     + unfold put_ok. now rewrite IL.
 Qed.
 
-Lemma wo_final s a nf w : GoodS s a nf -> clean a nf ->
+Lemma wo_final s a nf w : GoodS s a nf -> clean a nf -> wf_w w ->
   GoodS (apply_all s (writeout_ops s w)) (adb_put a w) (nf_put a w nf).
 Proof.
-  intros G C. destruct (wo_good s a nf w G C) as (k1 & k2 & _ & _ & _ & H3).
+  intros G C WFw. destruct (wo_good s a nf w G C WFw) as (k1 & k2 & _ & _ & _ & H3).
   specialize (H3 (S (k2 + length (writeout_ops s w))) ltac:(lia)).
   now rewrite firstn_all2 in H3 by lia.
 Qed.
@@ -103,13 +206,13 @@ Proof.
     cbn [fst app length]; lia.
 Qed.
 
-Lemma hist_good ws : forall s a nf, GoodS s a nf -> clean a nf -> Hist s ws a nf.
+Lemma hist_good ws : Forall wf_w ws -> forall s a nf, GoodS s a nf -> clean a nf -> Hist s ws a nf.
 Proof.
-  induction ws as [|w r IH]; intros s a nf G C.
+  induction 1 as [|w r WFw WFr IH]; intros s a nf G C.
   - exists (fun _ => 0), (fun _ => nf). split; [auto|]. split; [intros; cbn; lia|]. split; [auto|]. split; [auto|].
     intros t. split; [|now apply clean_bounded]. cbn. destruct t; cbn; exact G.
-  - destruct (wo_good s a nf w G C) as (k1 & k2 & L12 & H1 & H2 & H3).
-    pose proof (wo_final s a nf w G C) as GF. pose proof (clean_put a w nf C) as CF.
+  - destruct (wo_good s a nf w G C WFw) as (k1 & k2 & L12 & H1 & H2 & H3).
+    pose proof (wo_final s a nf w G C WFw) as GF. pose proof (clean_put a w nf C) as CF.
     pose proof (wo_nonempty s w) as NZ.
     set (O := writeout_ops s w) in *. set (n := length O) in *.
     destruct (IH _ _ _ GF CF) as (jr & nr & Mj & Bj & Mn & N0 & Gr).
@@ -142,5 +245,5 @@ Qed.
 
 Lemma good_empty : GoodS fs_empty [] (fun _ => 0).
 Proof. split; [constructor|]. intros k. reflexivity. Qed.
-Lemma hist_from_empty ws : Hist fs_empty ws [] (fun _ => 0).
-Proof. apply (hist_good ws _ _ _ good_empty). intros k. reflexivity. Qed.
+Lemma hist_from_empty ws : Forall wf_w ws -> Hist fs_empty ws [] (fun _ => 0).
+Proof. intros WF. apply (hist_good ws WF _ _ _ good_empty). intros k. reflexivity. Qed.
